@@ -23,7 +23,6 @@ var intervals = []date.Interval{date.Once, date.Daily, date.Weekly, date.Monthly
 
 func day(y int, m time.Month, d int) time.Time { return time.Date(y, m, d, 0, 0, 0, 0, time.UTC) }
 
-
 // RefPartition adapts the shared calendar reference to knut's interval type.
 func RefPartition(s, e time.Time, iv date.Interval, last int) []struct{ s, e time.Time } {
 	var res []struct{ s, e time.Time }
@@ -143,6 +142,20 @@ func c11Run(e *core.Env) {
 		}
 		for en := first; !en.After(lastDay); en = en.AddDate(0, 0, 1) {
 			check(s, en, probes)
+		}
+	}
+	// window A2: every pair of days around the end of a leap year (2020-12-31 is day 366)
+	// and of the following ordinary year, Align probed on every day of [first-10, last+10]
+	for _, y := range []int{2020, 2021, 2024} {
+		f2, l2 := day(y, 12, 24), day(y+1, 1, 8)
+		var pr []time.Time
+		for d := f2.AddDate(0, 0, -10); !d.After(l2.AddDate(0, 0, 10)); d = d.AddDate(0, 0, 1) {
+			pr = append(pr, d)
+		}
+		for s := f2; !s.After(l2); s = s.AddDate(0, 0, 1) {
+			for en := s; !en.After(l2); en = en.AddDate(0, 0, 1) {
+				check(s, en, pr)
+			}
 		}
 	}
 	if !e.Thorough() {
